@@ -56,7 +56,7 @@ def gen_case(rng, tier, avoid):
             # same-named objects of one type placed in two different sets of the logical file
             kd = rng.choice(['zone', 'axis', 'equipment', 'comment'])
             nm2 = 'TWIN'
-            for sname in ('SET-A', 'SET-B'):
+            for sname in (('SET-A', 'SET-B') if rng.random() < 0.5 else ('SET-A', 'SET-B', 'SET-A', 'SET-B')):
                 spec.add(lfi, kd, nm2, set_name=sname)
         # explicit origin references on a few objects, pointing at origins of this logical file
         refs = [op['kwargs']['origin_reference'] for op in spec.ops[start:] if op.get('kind') == 'origin'
